@@ -140,7 +140,7 @@ package badger
 // as it was (C28); an accepted write is recorded under its key, replacing an earlier pending
 // write of the same key, which is kept as a duplicate only if its version differs (C27, C04).
 //@ func (*Txn).modify
-//@   props C28 C27 C04 C36
+//@   props C28 C27 C04 C36 C02
 //@   requires txn.db != nil && e != nil && txn.db.threshold != nil && txn.db.bannedNamespaces != nil
 //@   requires txn.update ==> txn.pendingWrites != nil && allnonnil(txn.pendingWrites) && (txn.db.opt.DetectConflicts ==> txn.conflictKeys != nil)
 //@   domain txn.db.opt.NamespaceOffset < 1<<40
@@ -1124,6 +1124,7 @@ package badger
 //@   assert[user-key-of-current] before call ParseKey#1 : arg0 == ret(Key#1)
 //@   assert[internal-on-user-key] before call HasPrefix : arg0 == ret(ParseKey#1) && arg1 == badgerPrefix
 //@   assert[banned-on-user-key] before call isBanned : arg1 == ret(ParseKey#1)
+//@   assert[banned-user-keys-never-shown] before call newItem : isInternalKey || (called(isBanned#1) && ret(isBanned#1) == nil)
 //@   assert[version-of-current] before call ParseTs#1 : arg0 == ret(Key#1)
 //@   assert[all-versions-visible-only] before call fill#1 : ret(ParseTs#1) <= it.readTs && (it.opt.SinceTs > 0 ==> ret(ParseTs#1) > it.opt.SinceTs)
 //@   assert[deleted-or-expired-tested] before call isDeletedOrExpired : arg0 == ret(Value#1).Meta && arg1 == ret(Value#1).ExpiresAt
